@@ -367,7 +367,7 @@ func pool() []any {
 	return []any{
 		nil, true, false, float64(7), 3.5, float64(-1), float64(1), float64(2), float64(300), float64(70000),
 		"", "abc", "12", "-5", "+5", "1.5", "0x0102", "0x1", "0x", "0xzz", "0x00", "0X0A", "18446744073709551615", "18446744073709551616",
-		"9223372036854775807", "9223372036854775808", "-9223372036854775808", "-9223372036854775809", "1e3", "3.5e38", "1e400", "inf", "-Infinity", "NaN", "1_0", ".5", "5.", "e5", "é",
+		"9223372036854775807", "9223372036854775808", "-9223372036854775808", "-9223372036854775809", "1e3", "3.5e38", "1e400", "inf", "-Infinity", "NaN", "1_0", "_1", "1_", "1__0", "1_.5", "1e1_0", ".5", "5.", "e5", "1e", "1.5e-3", "--1", "é",
 		"0x" + strings.Repeat("ab", 32), "0x1" + strings.Repeat("ab", 32), "a very long string, longer than eight",
 		[]any{}, []any{float64(1)}, []any{"x"}, []any{float64(1), float64(2), float64(3)}, []any{map[string]any{}}, []any{float64(1), float64(2), float64(3), float64(4)},
 		map[string]any{}, map[string]any{"type": float64(1)}, map[string]any{"type": "x"}, map[string]any{"type": float64(2), "s": "q"},
